@@ -279,6 +279,15 @@ func Explore(t *testing.T, sc *Scenario, r *rep.Report) {
 		}
 		rp := Replay{Engine: "sched", Scenario: sc.Name, MapDesc: sc.MapDesc, Choices: choices}
 		if res.Diverged != "" {
+			if os.Getenv("VERIF_DEBUG_DIVERGE") != "" {
+				for i, st := range res.Steps {
+					exp := []string{}
+					if i < len(it.Expect) {
+						exp = it.Expect[i]
+					}
+					fmt.Fprintf(os.Stderr, "DIVERGE %3d now=%v parent=%v\n", i, st.Enabled, exp)
+				}
+			}
 			r.Violate(rep.Violation{Oracle: "harness", Signature: "nondeterminism:" + sc.Name, Detail: res.Diverged, Replay: rp})
 
 			continue
